@@ -22,11 +22,17 @@ RULE = ("PAIRS (A, B) of geometries (point clouds and meshes of independent topo
         "(driver op qattr with the explicit parameters: a function of x, origin_c, range, bits only) and equals the "
         "float32 expression float(k)*(range/float(2^bits-1))+origin_c for the integer k >= 0 exposed by the decode with "
         "skipped transform (grid membership); equal coordinates decode to one bit pattern inside the geometry. Oracle "
-        "per pair: every coordinate shared by A and B decodes to the same bit pattern in both.")
+        "per pair: every coordinate shared by A and B decodes to the same bit pattern in both."
+        ' A third of the Encoder-API pairs runs as a history on ONE draco::Encoder object (op encdech: A, then B '
+        'with the explicit parameters set again); random command scripts on the real Options / EncoderOptions '
+        'classes against the Lean option-store model (props/options_cases.py: SetAttributeExplicitQuantization '
+        'stores origin / range through Options::SetVector / SetFloat).')
 THEOREM_BACKED = ('explicit_pointwise (decoded = dequantize(quantize x), any FloatOps instance), on_grid (exact), '
                   'on_grid_float_partial (relative-error model: k <= 2^bits-1 only for bits <= 20, sharp: '
                   'quantized_exceeds_max_witness_21), on_grid_float_grid (grid-exact rounding model: bits <= 22), '
-                  'decodeParameters_encodeParameters_roundtrip; the oracle demands k >= 0 and tags k > 2^bits-1')
+                  'decodeParameters_encodeParameters_roundtrip; cited from C01: options_get_set_float / '
+                  'draco_options_attribute_resolution (the explicit origin / range pass the option store as float bit '
+                  'patterns, attribute -> global -> default); the oracle demands k >= 0 and tags k > 2^bits-1')
 CORRESPONDENCE_ONLY = "that the codec applies exactly this pipeline to explicitly quantized attributes under every method is what the oracle samples"
 EXPLANATION = ("the theorem speaks about AttributeQuantizationTransform; the end-to-end statement (no method, topology or option "
                "leaks into the value) is checked on real encodes of pairs")
